@@ -597,7 +597,7 @@ func TestHarmlessRewritesKeepFacts(t *testing.T) {
 	if err != nil {
 		t.Fatal(err)
 	}
-	for _, p := range []string{"H05.diff", "H07.diff", "harmless-rewrites.diff"} {
+	for _, p := range []string{"H05.diff", "H07.diff", "H18.diff", "H21.diff", "H22.diff", "H25.diff", "harmless-rewrites.diff"} {
 		got, err := gen(patched(t, p))
 		if err != nil {
 			t.Fatalf("%s: %v", p, err)
@@ -614,6 +614,8 @@ func TestSeededChangesFlipFacts(t *testing.T) {
 		"seeded-C04-3.diff": "bindEnqueuesReleaseOnlyOnNotFound",
 		"seeded-C01-3.diff": "finishedChecksPhaseOnly",
 		"seeded-C04-4.diff": "configurePoolMatchesSubnetAndRanges",
+		"seeded-C04-5.diff": "bindEnqueuesReleaseOnlyOnNotFound",
+		"seeded-C01-5.diff": "unbindChecksUID",
 	} {
 		got, err := gen(patched(t, p))
 		if err != nil {
@@ -621,6 +623,112 @@ func TestSeededChangesFlipFacts(t *testing.T) {
 		}
 		if !strings.Contains(got["Plugin.lean"], "def "+fact+" : Bool := false") {
 			t.Errorf("%s: %s is not false", p, fact)
+		}
+	}
+}
+
+const releaseSrc = `
+func (p *T) Release(r *Req) error {
+	k := r.KeyObj
+	defer p.lockPod(k.PodName, k.Namespace)()
+	fip, err := p.ipam.ByIP(r.IP)
+	if err != nil {
+		return err
+	}
+	DECISION
+	running, reason := p.podRunning(k.PodName, k.Namespace, fip.PodUid)
+	if running {
+		return fmt.Errorf("running")
+	}
+	glog.Infof("not running %s", reason)
+	PROVIDER {
+		if err := p.cloudProviderUnAssignIP(&Req{NodeName: fip.NodeName}); err != nil {
+			return fmt.Errorf("unassign")
+		}
+	}
+	if err := p.ipam.Release(k.KeyInDB, r.IP); err != nil {
+		return fmt.Errorf("release ip: %v", err)
+	}
+	return nil
+}
+`
+
+// the two-level decision of Release (key unchanged: go on; released meanwhile: nil; another owner: error) in its
+// nested-if, flat tagless-switch and guard-clause forms, the provider guard with either operand order
+func TestReleaseDecisionForms(t *testing.T) {
+	mk := func(dec, prov string) *Trace {
+		return traceOf(t, strings.Replace(strings.Replace(releaseSrc, "DECISION", dec, 1), "PROVIDER", prov, 1), "T", "Release")
+	}
+	good := []string{
+		`if fip.Key != k.KeyInDB {
+		if fip.Key == "" {
+			glog.Infof("already released")
+			return nil
+		}
+		return fmt.Errorf("ip allocated to another pod %s", fip.Key)
+	}`,
+		`switch {
+	case fip.Key == k.KeyInDB:
+		// still owned by the key, go on
+	case fip.Key == "":
+		glog.Infof("already released")
+		return nil
+	default:
+		return fmt.Errorf("other owner")
+	}`,
+		`if k.KeyInDB != fip.Key && fip.Key == "" {
+		return nil
+	}
+	if k.KeyInDB != fip.Key {
+		return fmt.Errorf("other owner")
+	}`,
+		`if fip.Key == k.KeyInDB {
+		glog.V(5).Infof("unchanged")
+	} else if fip.Key == "" {
+		return nil
+	} else {
+		return fmt.Errorf("other owner")
+	}`,
+	}
+	for i, d := range good {
+		for _, prov := range []string{`if p.cloudProvider != nil && fip.NodeName != ""`, `if fip.NodeName != "" && p.cloudProvider != nil`} {
+			if ok, _, _ := releaseRechecks(mk(d, prov)); !ok {
+				t.Errorf("form %d (%s) not recognised\n%s", i, prov, dumpTrace(mk(d, prov)))
+			}
+		}
+	}
+	// the same control flow on both forms
+	a, b := shape(mk(good[0], `if p.cloudProvider != nil && fip.NodeName != ""`)), shape(mk(good[1], `if fip.NodeName != "" && p.cloudProvider != nil`))
+	if sortLines(a) != sortLines(b) {
+		t.Errorf("nested-if and tagless-switch forms differ\n--- a\n%s--- b\n%s", a, b)
+	}
+	bad := []string{
+		``, // no comparison at all
+		`if fip.Key != k.KeyInDB {
+		glog.Infof("key changed")
+	}`,
+		`switch {
+	case fip.Key == k.KeyInDB:
+	case fip.Key == "":
+		return nil
+	}`, // another owner goes on
+		`if fip.Key != k.KeyInDB && fip.Key != "" {
+		return fmt.Errorf("other owner")
+	}`, // released meanwhile goes on
+		`if fip.Key != k.KeyInDB {
+		return nil
+	}`, // another owner is answered "ok"
+		`switch {
+	case fip.Key == "":
+		return nil
+	case fip.Key == k.PodName:
+	default:
+		return fmt.Errorf("other owner")
+	}`, // compares with something else
+	}
+	for i, d := range bad {
+		if ok, _, _ := releaseRechecks(mk(d, `if p.cloudProvider != nil && fip.NodeName != ""`)); ok {
+			t.Errorf("bad form %d accepted", i)
 		}
 	}
 }
